@@ -1,1 +1,465 @@
-fn main(){}
+//! vcheck-aws: C20 - AWS IoT builder: safe client id, intact custom-auth parameters, 3.1.1 defaults if unset.
+#![allow(dead_code, unused_variables, clippy::all)]
+
+#[path = "../../vcheck/src/abs.rs"]
+mod abs;
+#[path = "../../vcheck/src/panichook.rs"]
+mod panichook;
+#[path = "../../vcheck/src/runner.rs"]
+mod runner;
+mod sim {
+    use gneiss_mqtt::mqtt::QualityOfService;
+    pub fn qos_of(q: u8) -> QualityOfService {
+        match q {
+            0 => QualityOfService::AtMostOnce,
+            1 => QualityOfService::AtLeastOnce,
+            _ => QualityOfService::ExactlyOnce,
+        }
+    }
+}
+
+use abs::*;
+use gneiss_mqtt::client::config::*;
+use gneiss_mqtt::verif as gv;
+use gneiss_mqtt_aws::{AwsClientBuilder, AwsCustomAuthOptions};
+use panichook::guarded;
+use proptest::option;
+use proptest::prelude::*;
+use runner::{hash_str, run_property, CaseReport, Property, RunOptions, Tier, Violation};
+use serde::{Deserialize, Serialize};
+use serde_json::json;
+use std::time::Duration;
+
+#[derive(Clone, Debug, Serialize, Deserialize, PartialEq, Eq)]
+pub struct AuthSpec {
+    pub authorizer: Option<String>,
+    /// Some((raw signature, supplied pre-encoded?, token key name, token key value))
+    pub signed: Option<(String, bool, String, String)>,
+    pub username: Option<String>,
+    pub password: Option<Vec<u8>>,
+}
+
+#[derive(Clone, Debug, Serialize, Deserialize, PartialEq, Eq)]
+pub struct ClientSpec {
+    pub v5: bool,
+    /// None: not set by the user; Some(false): set to None; Some(true): set to OneAtATime
+    pub drain: Option<bool>,
+    pub retries: Option<u32>,
+    pub offline: u8,
+    pub connect_timeout_ms: u32,
+    pub ping_timeout_ms: u32,
+    pub base_ms: u32,
+    pub max_ms: u32,
+    pub stability_ms: u32,
+    pub jitter_none: bool,
+    pub resolver: bool,
+}
+
+#[derive(Clone, Debug, Serialize, Deserialize, PartialEq, Eq)]
+pub struct C20Case {
+    /// None: mTLS builder (no custom auth)
+    pub auth: Option<AuthSpec>,
+    pub connect: Option<AbsConnect>,
+    pub client: Option<ClientSpec>,
+}
+
+pub struct C20;
+
+fn uri_safe() -> BoxedStrategy<String> {
+    prop_oneof![4 => "[A-Za-z0-9_.~-]{1,16}", 1 => "[A-Za-z0-9_.~-]{0,6}(%[0-9A-F]{2}[A-Za-z0-9]{0,4}){1,3}"].boxed()
+}
+
+fn base64ish() -> BoxedStrategy<String> {
+    prop_oneof![3 => "[A-Za-z0-9+/]{4,60}={0,2}", 1 => "[A-Za-z0-9]{4,40}", 1 => "[+/]{1,8}=="].boxed()
+}
+
+fn auth_strategy() -> BoxedStrategy<AuthSpec> {
+    (option::weighted(0.8, uri_safe()), option::weighted(0.6, (base64ish(), any::<bool>(), uri_safe(), uri_safe())), option::weighted(0.6, prop_oneof![3 => "[a-zA-Z0-9_ -]{0,12}", 1 => "[a-z]{0,5}\\?[a-z=&]{0,6}", 1 => "[\u{e9}\u{4e16}a-z]{1,6}"]), option::weighted(0.5, proptest::collection::vec(any::<u8>(), 0..24)))
+        .prop_map(|(authorizer, signed, username, password)| AuthSpec { authorizer, signed, username, password })
+        .boxed()
+}
+
+fn client_strategy() -> BoxedStrategy<ClientSpec> {
+    (any::<bool>(), option::weighted(0.5, any::<bool>()), option::weighted(0.5, prop_oneof![Just(0u32), Just(2u32), Just(7u32)]), 0u8..4, (1u32..100_000, 1u32..100_000, 1u32..10_000, 1000u32..200_000, 0u32..100_000), any::<bool>(), any::<bool>())
+        .prop_map(|(v5, drain, retries, offline, (connect_timeout_ms, ping_timeout_ms, base_ms, max_ms, stability_ms), jitter_none, resolver)| ClientSpec { v5, drain, retries, offline, connect_timeout_ms, ping_timeout_ms, base_ms, max_ms, stability_ms, jitter_none, resolver })
+        .boxed()
+}
+
+fn build_client_options(c: &ClientSpec) -> MqttClientOptions {
+    let mut b = MqttClientOptions::builder();
+    b.with_protocol_mode(if c.v5 { ProtocolMode::Mqtt5 } else { ProtocolMode::Mqtt311 });
+    if let Some(d) = c.drain {
+        b.with_post_reconnect_queue_drain_policy(if d { PostReconnectQueueDrainPolicy::OneAtATime } else { PostReconnectQueueDrainPolicy::None });
+    }
+    if let Some(r) = c.retries {
+        b.with_max_interrupted_retries(r);
+    }
+    b.with_offline_queue_policy(match c.offline {
+        0 => OfflineQueuePolicy::PreserveAll,
+        1 => OfflineQueuePolicy::PreserveAcknowledged,
+        2 => OfflineQueuePolicy::PreserveQos1PlusPublishes,
+        _ => OfflineQueuePolicy::PreserveNothing,
+    });
+    b.with_connect_timeout(Duration::from_millis(c.connect_timeout_ms as u64));
+    b.with_ping_timeout(Duration::from_millis(c.ping_timeout_ms as u64));
+    b.with_base_reconnect_period(Duration::from_millis(c.base_ms as u64));
+    b.with_max_reconnect_period(Duration::from_millis(c.max_ms as u64));
+    b.with_reconnect_stability_reset_period(Duration::from_millis(c.stability_ms as u64));
+    b.with_reconnect_period_jitter(if c.jitter_none { ExponentialBackoffJitterType::None } else { ExponentialBackoffJitterType::Uniform });
+    if c.resolver {
+        b.with_outbound_alias_resolver_factory(gneiss_mqtt::alias::OutboundAliasResolverFactory::new_lru_factory(5));
+    }
+    b.build()
+}
+
+fn pct_decode(s: &str) -> Option<Vec<u8>> {
+    let b = s.as_bytes();
+    let mut out = Vec::new();
+    let mut i = 0;
+    while i < b.len() {
+        if b[i] == b'%' {
+            if i + 2 >= b.len() + 0 && i + 2 > b.len() - 0 {
+                return None;
+            }
+            if i + 2 >= b.len() + 1 {
+                return None;
+            }
+            let h = std::str::from_utf8(b.get(i + 1..i + 3)?).ok()?;
+            out.push(u8::from_str_radix(h, 16).ok()?);
+            i += 3;
+        } else {
+            out.push(b[i]);
+            i += 1;
+        }
+    }
+    Some(out)
+}
+
+fn pct_encode_all_reserved(s: &str) -> String {
+    // RFC 3986: everything except unreserved characters
+    let mut out = String::new();
+    for b in s.bytes() {
+        if b.is_ascii_alphanumeric() || b == b'-' || b == b'_' || b == b'.' || b == b'~' {
+            out.push(b as char);
+        } else {
+            out.push_str(&format!("%{:02X}", b));
+        }
+    }
+    out
+}
+
+fn make_builder(case: &C20Case) -> Result<(AwsClientBuilder, Option<(String, Option<Vec<u8>>)>), String> {
+    let mut auth_result = None;
+    let builder = match &case.auth {
+        Some(a) => {
+            let mut ab = match &a.signed {
+                Some((raw, pre, key, value)) => {
+                    let supplied = if *pre { pct_encode_all_reserved(raw) } else { raw.clone() };
+                    AwsCustomAuthOptions::builder_signed(a.authorizer.as_deref(), &supplied, key, value)
+                }
+                None => AwsCustomAuthOptions::builder_unsigned(a.authorizer.as_deref()),
+            };
+            if let Some(u) = &a.username {
+                ab.with_username(u);
+            }
+            if let Some(p) = &a.password {
+                ab.with_password(p);
+            }
+            let options = ab.build();
+            auth_result = Some((options.verif_username().to_string(), options.verif_password().map(|p| p.to_vec())));
+            AwsClientBuilder::new_direct_with_custom_auth("example-ats.iot.us-east-1.amazonaws.com", options, None).map_err(|e| format!("{}", e))?
+        }
+        None => AwsClientBuilder::new_direct_with_mtls_from_memory("example-ats.iot.us-east-1.amazonaws.com", b"not a certificate", b"not a key", None).map_err(|e| format!("{}", e))?,
+    };
+    let builder = match &case.connect {
+        Some(c) => builder.with_connect_options(c.build()),
+        None => builder,
+    };
+    let builder = match &case.client {
+        Some(c) => builder.with_client_options(build_client_options(c)),
+        None => builder,
+    };
+    Ok((builder, auth_result))
+}
+
+impl Property for C20 {
+    type Case = C20Case;
+
+    fn id(&self) -> &'static str {
+        "C20"
+    }
+
+    fn strategy(&self, _tier: Tier) -> BoxedStrategy<C20Case> {
+        (option::weighted(0.7, auth_strategy()), option::weighted(0.8, connect_strategy()), option::weighted(0.8, client_strategy()))
+            .prop_map(|(auth, connect, client)| {
+                // keep connect options small: byte lengths beyond a few hundred add nothing here
+                let connect = connect.map(|mut c| {
+                    if let Some(id) = &mut c.client_id {
+                        id.len = id.len.min(64);
+                    }
+                    if let Some(u) = &mut c.username {
+                        u.len = u.len.min(64);
+                    }
+                    if let Some(p) = &mut c.password {
+                        p.len = p.len.min(64);
+                    }
+                    if let Some(w) = &mut c.will {
+                        if let Some(p) = &mut w.payload {
+                            p.len = p.len.min(64);
+                        }
+                        for t in &mut w.topic {
+                            t.len = t.len.min(16).max(1);
+                        }
+                        w.user_props.truncate(2);
+                        for (a, b) in &mut w.user_props {
+                            a.len = a.len.min(16);
+                            b.len = b.len.min(16);
+                        }
+                        w.correlation = None;
+                        w.content_type = None;
+                        w.response_topic = None;
+                    }
+                    c.user_props.truncate(3);
+                    for (a, b) in &mut c.user_props {
+                        a.len = a.len.min(16);
+                        b.len = b.len.min(16);
+                    }
+                    c
+                });
+                C20Case { auth, connect, client }
+            })
+            .boxed()
+    }
+
+    fn check(&self, case: &C20Case) -> CaseReport {
+        let mut violations = Vec::new();
+        let mut labels: Vec<String> = Vec::new();
+        let built = guarded(|| {
+            let (b, auth) = make_builder(case)?;
+            let c1 = b.verif_final_connect_options();
+            let c2 = b.verif_final_connect_options();
+            let cl = b.verif_final_client_options();
+            Ok::<_, String>((gv::connect_options_view(&c1), gv::connect_options_view(&c2), gv::client_options_view(&cl), auth))
+        });
+        let (c1, c2, cl, auth) = match built {
+            Err((msg, loc)) => {
+                violations.push(Violation::new("C20.panic", "the AWS builder panics", format!("{} at {}", msg, loc)));
+                return CaseReport { violations, nontrivial: true, digest: 1, ..Default::default() };
+            }
+            Ok(Err(e)) => {
+                violations.push(Violation::new("C20.build_error", "the AWS builder fails for a valid configuration", e));
+                return CaseReport { violations, nontrivial: true, digest: 2, ..Default::default() };
+            }
+            Ok(Ok(x)) => x,
+        };
+        let user_view = case.connect.as_ref().map(|c| gv::connect_options_view(&c.build()));
+        let user_id: Option<String> = user_view.as_ref().and_then(|v| v.client_id.clone());
+
+        // --- client id
+        match &c1.client_id {
+            None => violations.push(Violation::new("C20.client_id_empty", "the final connect options have no client id", String::new())),
+            Some(id) if id.is_empty() => violations.push(Violation::new("C20.client_id_empty", "the final connect options have an empty client id", format!("user supplied {:?}", user_id))),
+            Some(id) => {
+                match &user_id {
+                    Some(u) if !u.is_empty() => {
+                        if id != u {
+                            violations.push(Violation::new("C20.client_id_replaced", "a user-supplied client id was replaced", format!("user {:?} final {:?}", u, id)));
+                        }
+                    }
+                    _ => {
+                        labels.push("client_id_generated".into());
+                        if c2.client_id.as_ref() == Some(id) {
+                            violations.push(Violation::new("C20.client_id_not_fresh", "two builds without a user client id produce the same generated id", format!("{:?}", id)));
+                        }
+                    }
+                }
+            }
+        }
+        // --- every other connect option unchanged
+        let base = user_view.clone().unwrap_or_else(|| gv::connect_options_view(&ConnectOptions::builder().build()));
+        let mut cmp_final = c1.clone();
+        let mut cmp_user = base.clone();
+        cmp_final.client_id = None;
+        cmp_user.client_id = None;
+        if case.auth.is_some() {
+            // custom auth supplies user name and (if set) password
+            cmp_final.username = None;
+            cmp_user.username = None;
+            if auth.as_ref().map(|a| a.1.is_some()).unwrap_or(false) {
+                cmp_final.password = None;
+                cmp_user.password = None;
+            }
+        }
+        if format!("{:?}", cmp_final) != format!("{:?}", cmp_user) {
+            violations.push(Violation::new("C20.connect_option_changed", "a user-supplied connect option other than the client id was changed", format!("user {:?} final {:?}", cmp_user, cmp_final)));
+        }
+        // --- custom auth
+        if let (Some(a), Some((final_username, final_password))) = (&case.auth, &auth) {
+            labels.push(if a.signed.is_some() { "custom_auth_signed".into() } else { "custom_auth_unsigned".into() });
+            if c1.username.as_deref() != Some(final_username.as_str()) {
+                violations.push(Violation::new("C20.auth_username_not_applied", "the CONNECT user name is not the custom-auth user name", format!("{:?} vs {:?}", c1.username, final_username)));
+            }
+            if a.password.is_some() && c1.password != *final_password {
+                violations.push(Violation::new("C20.auth_password_not_applied", "the CONNECT password is not the custom-auth password", String::new()));
+            }
+            if final_password != &a.password {
+                violations.push(Violation::new("C20.auth_password_changed", "the custom-auth password differs from the configured one", String::new()));
+            }
+            let user_part = a.username.clone().unwrap_or_default();
+            let prefix = format!("{}?", user_part);
+            if !final_username.starts_with(&prefix) {
+                violations.push(Violation::new("C20.auth_username_prefix", "the CONNECT user name does not start with the user's user name followed by '?'", format!("user {:?} final {:?}", user_part, final_username)));
+            } else {
+                let query = &final_username[prefix.len()..];
+                let mut params: Vec<(String, String)> = Vec::new();
+                let mut malformed = false;
+                if !query.is_empty() {
+                    for part in query.split('&') {
+                        match part.split_once('=') {
+                            Some((k, v)) if !k.is_empty() => params.push((k.to_string(), v.to_string())),
+                            _ => malformed = true,
+                        }
+                    }
+                }
+                if malformed {
+                    violations.push(Violation::new("C20.query_malformed", "the custom-auth query string is not a well-formed key=value list", format!("{:?}", query)));
+                }
+                let get = |k: &str| params.iter().find(|(a, _)| a == k).map(|(_, v)| v.clone());
+                match (&a.authorizer, get("x-amz-customauthorizer-name")) {
+                    (Some(n), Some(v)) => {
+                        if pct_decode(&v) != pct_decode(n) {
+                            violations.push(Violation::new("C20.authorizer_name", "the authorizer name in the query string does not decode back to the configured name", format!("configured {:?} query {:?}", n, v)));
+                        }
+                    }
+                    (Some(n), None) => violations.push(Violation::new("C20.authorizer_name", "the authorizer name is missing from the query string", format!("{:?} in {:?}", n, query))),
+                    (None, Some(v)) => violations.push(Violation::new("C20.authorizer_name", "an authorizer name appears although none was configured", v)),
+                    (None, None) => {}
+                }
+                if let Some((raw, pre, key, value)) = &a.signed {
+                    labels.push(if *pre { "signature_pre_encoded".into() } else { "signature_raw".into() });
+                    if raw.contains('+') || raw.contains('/') || raw.contains('=') {
+                        labels.push("signature_has_reserved_chars".into());
+                    }
+                    match get("x-amz-customauthorizer-signature") {
+                        None => violations.push(Violation::new("C20.signature", "the signature is missing from the query string", query.to_string())),
+                        Some(v) => {
+                            let decoded = pct_decode(&v);
+                            if decoded.as_deref() != Some(raw.as_bytes()) {
+                                violations.push(Violation::new("C20.signature", format!("the signature is not percent-encoded exactly once (supplied {})", if *pre { "pre-encoded" } else { "raw" }), format!("raw {:?} query value {:?}", raw, v)));
+                            } else if v.contains('+') || v.contains('/') || v.contains('=') {
+                                violations.push(Violation::new("C20.signature", "the signature in the query string still contains reserved characters", format!("raw {:?} query value {:?}", raw, v)));
+                            }
+                        }
+                    }
+                    match get(key) {
+                        None => violations.push(Violation::new("C20.token", "the token key is missing from the query string", format!("{:?} in {:?}", key, query))),
+                        Some(v) => {
+                            if pct_decode(&v) != pct_decode(value) {
+                                violations.push(Violation::new("C20.token", "the token value in the query string does not decode back to the configured value", format!("configured {:?} query {:?}", value, v)));
+                            }
+                        }
+                    }
+                }
+            }
+        }
+        // --- client options
+        let user_client = case.client.as_ref().map(|c| gv::client_options_view(&build_client_options(c))).unwrap_or_else(|| gv::client_options_view(&MqttClientOptions::builder().build()));
+        let is311 = matches!(user_client.protocol_mode, ProtocolMode::Mqtt311);
+        let neither = user_client.post_reconnect_queue_drain_policy.is_none() && user_client.max_interrupted_retries.is_none();
+        let expect_defaults = is311 && neither;
+        let (exp_drain, exp_retries) = if expect_defaults { (Some(PostReconnectQueueDrainPolicy::OneAtATime), Some(2)) } else { (user_client.post_reconnect_queue_drain_policy, user_client.max_interrupted_retries) };
+        if cl.post_reconnect_queue_drain_policy != exp_drain || cl.max_interrupted_retries != exp_retries {
+            violations.push(Violation::new("C20.aws_defaults", format!("3.1.1 defaults applied wrongly (311={} drain set={} retries set={})", is311, user_client.post_reconnect_queue_drain_policy.is_some(), user_client.max_interrupted_retries.is_some()), format!("expected {:?}/{:?} got {:?}/{:?}", exp_drain, exp_retries, cl.post_reconnect_queue_drain_policy, cl.max_interrupted_retries)));
+        }
+        let mut a = cl.clone();
+        let mut b = user_client.clone();
+        a.post_reconnect_queue_drain_policy = None;
+        a.max_interrupted_retries = None;
+        b.post_reconnect_queue_drain_policy = None;
+        b.max_interrupted_retries = None;
+        if format!("{:?}", a) != format!("{:?}", b) {
+            violations.push(Violation::new("C20.client_option_changed", "a user-supplied client option was changed", format!("user {:?} final {:?}", b, a)));
+        }
+        if expect_defaults {
+            labels.push("aws_311_defaults_applied".into());
+        }
+        if is311 && !neither {
+            labels.push("311_user_override".into());
+        }
+        if matches!(&user_id, Some(u) if u.is_empty()) {
+            labels.push("explicit_empty_client_id".into());
+        }
+        let nontrivial = case.auth.as_ref().map(|a| a.signed.is_some()).unwrap_or(false) || is311 || user_id.is_none() || matches!(&user_id, Some(u) if u.is_empty());
+        let digest = hash_str(&format!("{:?}", case));
+        let sample = json!({"auth": case.auth, "user_client_id": user_id, "final_client_id": c1.client_id, "final_username": c1.username, "client": case.client});
+        CaseReport { violations, labels, nontrivial, digest, sample: Some(sample), ..Default::default() }
+    }
+
+    fn cases_per_shard(&self, tier: Tier) -> u32 {
+        match tier {
+            Tier::Quick => 6000,
+            Tier::Thorough => 150_000,
+        }
+    }
+
+    fn rule_text(&self) -> String {
+        "AWS builder inputs: authorizer names and token key names/values over the URI-safe alphabet plus valid %XX escapes, signatures = base64-like strings (with +, /, =) supplied raw or percent-encoded, user names incl. '?', '&', '=' and multi-byte characters, arbitrary binary passwords, user connect options over every field (client id absent / empty / given) and client options over protocol mode x drain policy set/unset x retries set/unset x every other field; oracle: client id non-empty, the user's when non-empty, fresh per build otherwise, every other connect / client option unchanged, user name = user's + '?' + query that parses (split '&', first '=', one percent-decode) back to the configured authorizer name, token key -> value and to the RAW signature in both input forms, OneAtATime + 2 retries iff (3.1.1 and neither set); non-trivial = signed custom auth, or 3.1.1 mode, or no / empty user client id; distinct = hash of the case".to_string()
+    }
+
+    fn assumptions(&self) -> Vec<String> {
+        vec!["token names/values and authorizer names are generated from the domain the API documents (already URI-encoded by the caller)".into(), "read-only `verif_*` accessors expose what build_tokio/build_threaded would pass on; no network or TLS context is created".into()]
+    }
+}
+
+fn main() {
+    panichook::install();
+    let args: Vec<String> = std::env::args().collect();
+    if args.len() < 2 || args[1] != "C20" {
+        eprintln!("usage: vcheck-aws C20 [--tier quick|thorough] [--seed N] [--replay path] [--root /verif]");
+        std::process::exit(2);
+    }
+    let mut tier = match std::env::var("VERIF_TIER").ok().as_deref() {
+        Some("thorough") => Tier::Thorough,
+        _ => Tier::Quick,
+    };
+    let mut seed: u64 = std::env::var("VERIF_SEED").ok().and_then(|s| s.parse::<i128>().ok()).map(|v| v as u64).unwrap_or(20260923);
+    let mut replay = None;
+    let mut shards = std::thread::available_parallelism().map(|n| n.get()).unwrap_or(8).min(16);
+    let mut cases_override = None;
+    let mut strict = false;
+    let mut root = "/verif".to_string();
+    let mut i = 2;
+    while i < args.len() {
+        match args[i].as_str() {
+            "--tier" => {
+                i += 1;
+                tier = if args.get(i).map(|s| s.as_str()) == Some("thorough") { Tier::Thorough } else { Tier::Quick };
+            }
+            "--seed" => {
+                i += 1;
+                seed = args.get(i).and_then(|s| s.parse::<i128>().ok()).map(|v| v as u64).unwrap_or(seed);
+            }
+            "--replay" => {
+                i += 1;
+                replay = args.get(i).cloned();
+            }
+            "--shards" => {
+                i += 1;
+                shards = args.get(i).and_then(|s| s.parse().ok()).unwrap_or(shards);
+            }
+            "--cases" => {
+                i += 1;
+                cases_override = args.get(i).and_then(|s| s.parse().ok());
+            }
+            "--strict" => strict = true,
+            "--root" => {
+                i += 1;
+                root = args.get(i).cloned().unwrap_or(root);
+            }
+            _ => {}
+        }
+        i += 1;
+    }
+    let opts = RunOptions { tier, seed, shards, verif_root: root, replay, cases_override, strict };
+    std::process::exit(run_property(&C20, &opts));
+}
